@@ -311,7 +311,7 @@ func (e *ErrPlan) build(ctx context.Context) error {
 func (d DetailPlan) message() proto.Message {
 	switch d.Kind {
 	case 0:
-		return wrapperspb.String(string(d.Data))
+		return wrapperspb.String(fmt.Sprintf("détail %x", d.Data))
 	case 1:
 		return wrapperspb.Bytes(d.Data)
 	case 2:
@@ -321,7 +321,7 @@ func (d DetailPlan) message() proto.Message {
 		}
 		return durationpb.New(time.Duration(n % (1 << 50)))
 	default:
-		s, _ := structpb.NewStruct(map[string]any{"k": string(d.Data), "n": float64(len(d.Data))})
+		s, _ := structpb.NewStruct(map[string]any{"k": fmt.Sprintf("%x", d.Data), "n": float64(len(d.Data))})
 		return s
 	}
 }
